@@ -193,7 +193,7 @@ def thaw_dir(d: dict) -> dict:
 
 def kids_compact(case) -> str:
     def one(k):
-        extra = [k["kind"]] + ([k["fault"]] if k["fault"] != "none" else []) + (["capx"] if k["capx"] else [])
+        extra = [k["kind"]] + ([k["fault"] + (":" + k["errno"] if k.get("errno") else "")] if k["fault"] != "none" else []) + (["capx"] if k["capx"] else [])
         if k["blocks"]:
             extra.append("blocks=" + ";".join(
                 "%s%s>%s%s%s%s" % ("./" if b["merge"] else "", b["tgt"], b["title"], "#%d" % b["num"] if b["num"] else "",
@@ -212,10 +212,13 @@ def kid_label(case, name) -> str:
         return "unknown"
     shape = "html" if k["kind"] == "file" and name.endswith((".html", ".htm")) else k["kind"]
     dot = "dot-" if name.startswith(".") else ""
-    if k["kind"] in ("dangling", "fifo", "socket"):
+    if any(name != o["name"] and name.startswith(o["name"]) and name[len(o["name"]):].startswith(".") and "." not in name[len(o["name"]) + 1:]
+           and o["kind"] == "file" for o in case["kids"]) and k["kind"] != "file":
+        dot = "sidecar-"
+    if k["kind"] in ("dangling", "loop", "thrufile", "fifo", "socket"):
         return dot + k["kind"]
     if k["fault"] != "none":
-        return "%s%s:%s" % (dot, k["fault"], shape)
+        return "%s%s%s:%s" % (dot, k["fault"], "-" + k["errno"] if k.get("errno") else "", shape)
     for sub, lab in BAD:
         if sub in name:
             return "name-%s:%s" % (lab, shape)
@@ -296,12 +299,22 @@ class DirWorld:
                 data = file_content(k["name"])
             with ropen(p, "wb") as fp:
                 fp.write(data)
-        elif k["kind"] == "dir":
+        elif k["kind"] in ("dir", "dirabs"):
             os.makedirs(p, exist_ok=True)
             with ropen(p + "/inner.txt", "wb") as fp:
                 fp.write(b"inner\n")
+            if k["kind"] == "dirabs":
+                os.makedirs(p + "/.abstract", exist_ok=True)        # a DIRECTORY where the side-car of the directory would be
         elif k["kind"] == "dangling":
             os.symlink(DANGLING_TARGET, p)
+        elif k["kind"] == "loop":
+            os.symlink(k["name"], p)                                # points at itself: stat -> ELOOP
+        elif k["kind"] == "thrufile":
+            aux = self.w.root.rstrip("/") + ".aux"                  # a regular file OUTSIDE the document root
+            if not os.path.lexists(aux):
+                with ropen(aux, "wb") as fp:
+                    fp.write(b"aux\n")
+            os.symlink(aux + "/x", p)                               # through a regular file: stat -> ENOTDIR
         elif k["kind"] == "fifo":
             os.mkfifo(p)
         elif k["kind"] == "socket":
@@ -343,31 +356,46 @@ class DirWorld:
         return order
 
     def _touch(self, path, op):
+        if op == "open":
+            # opening a FIFO nobody writes to blocks for ever, whoever asks and whenever: always made observable
+            try:
+                if statmod.S_ISFIFO(self.envsub.REAL["lstat"](path).st_mode):
+                    self.hung = os.path.basename(path)
+                    if self.active:
+                        k = self.kidpath.get(path)
+                        if k is not None:
+                            self.fired.append([k["name"], "fifo", 0])
+                            self.touches.append([k["name"], op, "blocks"])
+                    return HangForever(self.hung)
+            except OSError:
+                pass
         if not self.active:
             return None
         k = self.kidpath.get(path)
         if k is None:
+            # secondary probes of paths UNDER a child (child/gophermap, child/new, child/cur ...)
+            for kp, kk in self.kidpath.items():
+                if kk["fault"] == "esub" and path.startswith(kp + "/"):
+                    self.fired.append([kk["name"], "esub", 0])
+                    return OSError(getattr(errno, kk.get("errno") or "EACCES"), "injected", path)
             return None
         n = k["name"]
         c = self.count[n] = self.count.get(n, 0) + 1
         inj = ""
         f = k["fault"]
+        en = getattr(errno, k.get("errno") or "EACCES")
         if (f == "vanish1" and c == 1) or (f == "vanish2" and c == 2):
             self._remove(path)
             inj = "vanish"
         ex = None
         if f == "estat" and op in ("stat", "lstat"):
-            ex = PermissionError(errno.EACCES, "Permission denied (injected)", path)
-            inj = "EACCES"
+            ex = OSError(en, os.strerror(en) + " (injected)", path)
+            inj = errno.errorcode[en]
         if f == "eopen" and op == "open":
-            ex = PermissionError(errno.EACCES, "Permission denied (injected)", path)
-            inj = "EACCES"
-        if op == "open" and k["kind"] == "fifo" and ex is None:
-            ex = HangForever(n)
-            inj = "blocks"
-            self.hung = n
+            ex = OSError(en, os.strerror(en) + " (injected)", path)
+            inj = errno.errorcode[en]
         if inj:
-            self.fired.append([n, k["fault"] if k["fault"] != "none" else k["kind"], c])
+            self.fired.append([n, f, c])
         self.touches.append([n, op, inj])
         return ex
 
@@ -433,7 +461,7 @@ class DirWorld:
         events, extras = [], []
         for k in self.case["kids"]:
             sel = self.case["sb"] + "/" + k["name"]
-            if sel in listed or k["kind"] not in ("file", "dir") or k["fault"] != "none":
+            if sel in listed or k["kind"] not in ("file", "dir", "dirabs") or k["fault"] != "none":
                 continue
             data, tls = request_bytes(proto, sel, self.waptop)
             self.active = False
@@ -445,6 +473,8 @@ class DirWorld:
 
     def fetch(self, name):
         """Exact-selector request for one child (Gopher): what came back, abstractly."""
+        if self.dirty:                      # a control request emptied the directory: put the children back
+            self.build(self.case)
         k = next(x for x in self.case["kids"] if x["name"] == name)
         sel = self.case["sb"] + "/" + name
         self.active = False
@@ -455,7 +485,7 @@ class DirWorld:
             got = "content"
         else:
             status, items = lex("G", r.out, self.footers, self.waptop)
-            got = "menu" if status == "ok" and (r.out or k["kind"] == "dir") else ("error" if status in ("notfound", "error") else "other")
+            got = "menu" if status == "ok" and (r.out or k["kind"] in ("dir", "dirabs")) else ("error" if status in ("notfound", "error") else "other")
         return {"ev": "fetch", "name": name, "got": got}, {"raw": r.out[:200].decode("latin-1"), "log": r.log[-2:]}
 
     def _content(self, k):
